@@ -11,7 +11,7 @@ open Posmint.Chain Posmint.Chain.B
 theorem handle_sign_kept {s s' : State} {m : Msg} (h : handle s m = some s') (a : Addr) (si : Sign)
     (hsi : aget s.sign a = some si) : aget s'.sign a = some si := by
   by_cases hm : (∀ k amt, m ≠ .stake k amt) ∧ (∀ a, m ≠ .unstake a) ∧ (∀ a, m ≠ .unjail a)
-  · obtain ⟨b, sup, p, ac, d, rfl⟩ := handle_other_shape h hm
+  · obtain ⟨b, sup, p, ac, d, u, rfl⟩ := handle_other_shape h hm
     exact hsi
   · cases m with
     | stake k amt =>
